@@ -16,7 +16,7 @@ for s in $SEEDS; do
   git -C $W checkout -q -- . 
   if ! git -C $W apply $patch 2>/dev/null; then echo "$s: patch does not apply"; echo "patch does not apply to the current tree" > $d/detection.txt; continue; fi
   own=$(python3 -c "import json;print(json.load(open('$d/meta.json'))['breaks_property'])" 2>/dev/null); [ -z "$own" ] && own=${s%-*}
-  PROPS="$own $(cat $d/also_check 2>/dev/null)"
+  PROPS=$(echo "$own $(cat $d/also_check 2>/dev/null)" | tr ' ' '\n' | awk 'NF && !seen[$0]++' | tr '\n' ' ')
   [ -n "$SEED_PROPS" ] && PROPS="$SEED_PROPS"
   [ "$SEED_PROPS" = "all" ] && PROPS="$ALL"
   : > $d/detection.txt
